@@ -51,6 +51,10 @@ def check(case, out):
         twin = lib.build_curve(dict(c, num="float"))
         twin(float(ref.U[0]))
         twin([float(ref.U[0]), float(ref.U[-1])])
+        try:  # exact parameters on the float twin as well (an end like 4/3 lies outside its rounded float: refused)
+            twin([ref.U[0], (ref.U[0] + ref.U[-1]) / 2, ref.U[-1]])
+        except ValueError:
+            pass
         out.cls("float-twin-first")
     curve = lib.build_curve_history(c, case.get("history"))
     if case.get("history"):
